@@ -331,6 +331,22 @@ def sweep(r, callback=None):
                 pass
 
 
+def random_setup_options(rng, case, p=0.3):
+    """optional [Setup] switches a user may combine with anything: SE2ANL geometry, tolerance on the re-evaluation of
+    correlated parameters, low-flow convection approximation, gravity head"""
+    s = case['setup']
+    if rng.random() < p:
+        s['se2geo'] = True
+    if rng.random() < p:
+        s['param_update_tol'] = rng.choice([0.001, 0.01, 0.05])
+    if rng.random() < p and 'conv_approx' not in s:
+        s['conv_approx'] = True
+        s['conv_approx_dz_cutoff'] = rng.choice([0.001, 0.01, 1.0])
+    if rng.random() < p:
+        s['include_gravity_head_loss'] = True
+    return case
+
+
 def add_axial_regions(rng, case, tname, lower=True, upper=True, models=('simple', '6node')):
     """Unrodded regions below / above the pin bundle of assembly type `tname`."""
     L = case['core']['length']
